@@ -5,7 +5,7 @@ import ast
 from typing import Dict, List, Optional, Set, Tuple
 
 from ..astutil import call_name, unparse, walk_shallow
-from ..cfg import CFG, CNode, path_text as cfg_path_text
+from ..cfg import CFG, CNode, LocalDefs, path_text as cfg_path_text
 from ..index import AnalysisError
 from ..obsmodel import (ROOT_CALL, Ev, ObsClassModel, ObsModel, alternatives, chains_in, dnf_text, is_pseudo, path_text,
                         producer_fields, template_text, walk_chain)
@@ -660,6 +660,22 @@ def r9_7(ctx: Ctx, om: ObsModel) -> None:
         for fn in c.methods.values():
             if isinstance(fn.node, ast.Lambda):
                 continue
+            _ld = LocalDefs(fn.node)
+            _params = {a.arg for a in fn.node.args.args + fn.node.args.kwonlyargs}
+
+            def _last_name(e: ast.AST, _ld=_ld, _params=_params) -> Optional[str]:  # noqa: F811 - a local stands for its definition
+                if isinstance(e, ast.Attribute):
+                    return e.attr
+                if isinstance(e, ast.Name):
+                    if e.id not in opts and e.id not in _params:
+                        d = _ld.single(e.id)
+                        if d and d[0] is not None and d[1] is None and isinstance(d[0], (ast.Attribute, ast.Name)):
+                            return _last_name(d[0])
+                        if d and d[0] is not None and d[1] is None and isinstance(d[0], (ast.ListComp, ast.DictComp, ast.SetComp)):
+                            return _last_name(d[0].generators[0].iter)  # [f(c) for c in config.<option>]
+                    return e.id
+                return None
+
             for nd in ast.walk(fn.node):
                 # (a) inheritance block: if X.f is None / if not X.f : X.g = Y.h
                 if isinstance(nd, ast.If) and len(nd.body) == 1 and isinstance(nd.body[0], ast.Assign) and not nd.orelse:
